@@ -452,11 +452,13 @@ func (d *driver) gen() *t_api.Request {
 		return &t_api.Request{Kind: t_api.HeartbeatLocks, HeartbeatLocks: &t_api.HeartbeatLocksRequest{ProcessId: d.pick([]string{"w1", "w2"})}}
 	case "CreateSchedule":
 		ptags := map[string]string(nil)
-		switch d.r.Intn(4) {
+		switch d.r.Intn(5) {
 		case 0:
 			ptags = map[string]string{"resonate:timeout": "true"}
 		case 1:
 			ptags = map[string]string{"x": "y"}
+		case 2:
+			ptags = map[string]string{"resonate:invoke": "w1"} // the scheduled promise is routed: created with its task
 		}
 		return &t_api.Request{Kind: t_api.CreateSchedule, CreateSchedule: &t_api.CreateScheduleRequest{
 			Id: d.pick(d.sched), Description: d.pick([]string{"", "d"}), Cron: d.pick(d.crons), Tags: []map[string]string{nil, {"team": "a"}, {"team": "b"}}[d.r.Intn(3)],
